@@ -86,6 +86,17 @@ def _variants(docs):
         b[len(b) // 2] ^= 0x10
         out["var/wirecard-flip.pdf"] = bytes(b)
     out["var/notpdf.pdf"] = b"this is not a pdf at all\n" * 4
+    z7 = docs.get("fx/archives/test_archive.7z")
+    if z7:
+        for o in (36, 40, 60, len(z7) // 2):  # payload / header damage: header may still parse, extraction fails
+            b = bytearray(z7)
+            for i in range(o, min(len(b), o + 4)):
+                b[i] ^= 0xFF
+            out[f"var/corrupt{o}.7z"] = bytes(b)
+    # archives sharing member base names in different roles (hidden / resource fork / regular)
+    out["var/macosx.zip"] = corpus._zip([("__MACOSX/summary.txt", b"resource fork junk\n"), ("docs/other.txt", b"other\n"), (".hidden.txt", b"h\n")])
+    out["var/plain.zip"] = corpus._zip([("docs/summary.txt", b"real summary\n"), ("other.txt", b"other two\n"), ("hidden.txt", b"not hidden\n")])
+    out["var/macosx.tar"] = corpus._tar([("__MACOSX/other.txt", b"junk\n"), ("summary.txt", b"tar summary\n")])
     s = docs.get("fx/pdf/sample.pdf")
     if s:
         out["var/sample-trunc.pdf"] = s[:5000]
@@ -108,7 +119,9 @@ def warm():
     _pdfs = sorted(n for n in docs if n.endswith(".pdf"))
     others = ["fx/modern_ms/headings.docx", "fx/modern_ms/mwe.xlsx", "fx/mails/basic_email.eml", "fx/archives/test_archive.7z",
               "fx/archives/sample.zip", "fx/html/sample.html", "fx/open_office/sample_document.odt", "fx/epub/sample.epub",
-              "fx/legacy_ms/mwe.xls", "gen/a.tar.gz", "gen/a.rtf", "fx/modern_ms/pptx_table.pptx", "gen/att.eml"]
+              "fx/legacy_ms/mwe.xls", "gen/a.tar.gz", "gen/a.rtf", "fx/modern_ms/pptx_table.pptx", "gen/att.eml",
+              "var/macosx.zip", "var/plain.zip", "var/macosx.tar", "var/corrupt36.7z", "var/corrupt40.7z", "var/corrupt60.7z"]
+    others += [n for n in docs if n.startswith("var/corrupt") and n not in others]
     _pool = _pdfs + [o for o in others if o in docs]
     # isolated baselines: one extraction per fork, taken BEFORE anything was extracted in this process
     jobs = [(n, {"name": n}) for n in _pool]
